@@ -88,7 +88,7 @@ func TestC01FaultEnum(t *testing.T) {
 			var plans []*RoundPlan
 			for i := 0; i < m; i++ {
 				for _, ap := range []bool{false, true} {
-					plans = append(plans, &RoundPlan{Faults: []FaultSpec{{i, ap}}})
+					plans = append(plans, &RoundPlan{Faults: []FaultSpec{{Idx: i, Applied: ap, Kind: faultKinds[(i+len(plans))%len(faultKinds)]}}})
 				}
 			}
 			if thorough() {
@@ -97,7 +97,7 @@ func TestC01FaultEnum(t *testing.T) {
 					for j := i + 1; j < mm+1 && j < m; j++ {
 						for _, a1 := range []bool{false, true} {
 							for _, a2 := range []bool{false, true} {
-								plans = append(plans, &RoundPlan{Faults: []FaultSpec{{i, a1}, {j, a2}}})
+								plans = append(plans, &RoundPlan{Faults: []FaultSpec{{Idx: i, Applied: a1, Kind: faultKinds[(i+j)%len(faultKinds)]}, {Idx: j, Applied: a2, Kind: faultKinds[(i*3+j)%len(faultKinds)]}}})
 							}
 						}
 					}
